@@ -31,6 +31,25 @@ CHECKS["C15"] = dict(
     technique="z3 QF_LIA over access sets extracted from the pystencils backend IR (sizes and cells symbolic) + alias queries per traced call site",
     design="DESIGN.md section 5 C15")
 
+CHECKS["C12"] = dict(
+    text="Bounded symbolic checking: the real curl/divergence/update/cross-product/2-D curl kernels are composed on grids of solver variables; z3 shows div(curl F)=0, that curl-type updates "
+         "leave div(omega) unchanged, that the stream-function velocity is discretely divergence-free with in-plane curl equal to the wide five-point Laplacian, that the forcing update equals "
+         "omega + p*(library curl) and the penalised update equals the forcing update of the difference, and that the divergence monitor equals dx^(3/2)*||div_h omega||_2.",
+    technique="symbolic composition of the real kernels (backend IR) + z3 identity queries per interior cell",
+    design="DESIGN.md section 5 C12")
+CHECKS["C05"] = dict(
+    text="Symbolic checking over polynomial inputs: every differential kernel is run on arrays holding a polynomial with symbolic coefficients sampled at x0+i*h (symbolic h, base point, "
+         "prefactor); z3 (nlsat) shows the interior output equals the exact derivative expression with the documented sign/axis/prefactor convention, for all polynomials of degree <= 2 "
+         "(ENO3: cubics when both faces upwind alike, quadratics across a velocity sign change).",
+    technique="symbolic execution of the real kernels on polynomials with symbolic coefficients + z3 non-linear real arithmetic identity queries",
+    design="DESIGN.md section 5 C05")
+CHECKS["C04"] = dict(
+    text="Symbolic checking: for every ENO3 face-kernel pair (classified from the IR) the increment given to a cell through a face plus the increment given to its neighbour through the same "
+         "face is zero for all field/velocity values and all upwind sign patterns; telescoping sums of the forcing update, diffusion flux, Laplacian filters and the ENO3 advection step vanish "
+         "for compactly supported data with arbitrary velocity.",
+    technique="symbolic execution of the real flux/update kernels + z3 queries (ite-encoded upwind switches; grid sums)",
+    design="DESIGN.md section 5 C04")
+
 NOT_APPLICABLE = {
     "C02": "convergence of whole simulations over resolution families: thousands of time steps of floating-point code on 32^2..128^2 grids; no bound on steps/sizes under which a solver query is still the property (DESIGN.md section 5 C02). Its solver-decidable ingredients are claimed under C01, C03, C05, C16.",
 }
